@@ -13,13 +13,14 @@ import (
 // C20 — no Couchbase call made by the library can hang or invent an outcome.
 //
 // Reference model, per wrapper call (call/ret events carry the wrapper's deadline):
-//   R1  it returns within deadline + eps of being called, whatever the node does;
-//   R2  it reports success only if, at the moment it returned, every request it had sent had been answered
-//       by the node and the last answer per (command, key, vBucket) was a success; a call whose scripted
-//       request was answered with an error status, after the deadline, or never, reports an error;
-//   R3  what it returns on success is the node's payload;
-//   R4  after it returned it sends nothing more;
-//   R5  a completion that arrives after the return does not kill the process.
+//
+//	R1  it returns within deadline + eps of being called, whatever the node does;
+//	R2  it reports success only if, at the moment it returned, every request it had sent had been answered
+//	    by the node and the last answer per (command, key, vBucket) was a success; a call whose scripted
+//	    request was answered with an error status, after the deadline, or never, reports an error;
+//	R3  what it returns on success is the node's payload;
+//	R4  after it returned it sends nothing more;
+//	R5  a completion that arrives after the return does not kill the process.
 func init() { checkers["C20"] = checkC20 }
 
 const c20Eps = int64(150_000_000)
